@@ -373,7 +373,8 @@ def run(ck):
     found, stats = [], {"units_evaluated": 0, "points": 0, "skipped_division_by_zero": 0}
     for p in PARTS:
         b = bins["c02trace%d" % p]
-        f, st = t1.search_units(ck, [u for u in units if by_bin[u.name] == b], S, rng, b, trials=trials)
+        # part 6 (second batch): small units, several without theorem of their own: more points
+        f, st = t1.search_units(ck, [u for u in units if by_bin[u.name] == b], S, rng, b, trials=trials if p != 6 else 3 * trials)
         found += f
         for k in stats:
             stats[k] += st[k]
